@@ -34,7 +34,8 @@ def diagram_case(draw):
     for _ in range(nrx):
         rxns.append({'react': draw(st.lists(st.tuples(idx, coef).map(list), min_size=1, max_size=3)),
                      'prod': draw(st.lists(st.tuples(idx, coef).map(list), min_size=1, max_size=2))})
-    norm = draw(st.one_of(st.none(), st.lists(st.floats(0.25, 8.0), min_size=nrx, max_size=nrx)))
+    norm = draw(st.one_of(st.none(), st.lists(st.floats(0.25, 8.0), min_size=nrx, max_size=nrx),
+                          st.lists(st.integers(1, 8), min_size=nrx, max_size=nrx)))      # whole numbers typed as integers too
 
     def axis(kind, nmax=30):
         n = draw(st.integers(1, nmax))
@@ -79,9 +80,9 @@ def check_diagram(case, ctx):
     for r in case['rxns']:
         rxns.append(Reaction(reactants=[sp[i] for i, _ in r['react']], reactants_stoich=[c_ for _, c_ in r['react']],
                              products=[sp[i] for i, _ in r['prod']], products_stoich=[c_ for _, c_ in r['prod']]))
-    norm = None if case['norm'] is None else np.array(case['norm'])
+    norm = None if case['norm'] is None else np.array(case['norm'])      # (an integer list gives an integer array)
     pd = PhaseDiagram(reactions=rxns, norm_factors=norm)
-    nf = np.ones(len(rxns)) if norm is None else norm
+    nf = np.ones(len(rxns)) if norm is None else np.asarray(norm, dtype=float)
     u = case['units']
     n1, v1 = _axis_args(case['x1'], names)
     n2, v2 = _axis_args(case['x2'], names)
@@ -183,7 +184,7 @@ def span_case(draw):
     # distinct levels (meV grid) so that the order of the extrema is well defined
     levels = draw(st.lists(st.integers(-3000, 5000), min_size=2 * n + 1, max_size=2 * n + 1, unique=True))
     for k in range(n + 1):
-        species.append({'cls': 'StatMech', 'name': 'I%d' % k, 'trans': None, 'rot': None, 'nucl': False,
+        species.append({'cls': 'StatMech', 'name': 'I%d' % k, 'trans': draw(st.one_of(st.none(), gen.trans_st)), 'rot': None, 'nucl': False,
                         'vib': draw(st.one_of(st.none(), gen.harmonic_st(allow_imag=False))),
                         'elec': {'E': levels[k] / 1000.0, 'spin': 0}})
     ts = []
@@ -194,7 +195,8 @@ def span_case(draw):
                        'elec': {'E': levels[n + 1 + k] / 1000.0, 'spin': 0}})
         else:
             ts.append(None)
-    return {'species': species, 'ts': ts, 'T': draw(st.floats(250, 1500)),
+    return {'species': species, 'ts': ts, 'T': draw(st.floats(250, 1500)), 'P': draw(gen.logf(1e-3, 1e2)),
+            'P2': draw(gen.logf(1e-3, 1e2)), 'T2': draw(st.floats(250, 1500)),
             'units': draw(st.sampled_from(['kJ/mol', 'eV', 'kcal/mol'])), 'coef': draw(st.sampled_from([1.0, 1.0, 2.0]))}
 
 
@@ -210,46 +212,42 @@ def check_span(case, ctx):
                              transition_state=None if tsp[k] is None else [tsp[k]],
                              transition_state_stoich=None if tsp[k] is None else [cf]))
     T, u = case['T'], case['units']
+    P = case.get('P', 1.0)
 
-    def G(s):
-        return cf * float(s.get_G(units=u, T=T))
-    # the harness's own state list
-    seq = []          # Reactions.get_E_span lists reactants, TS, products of every step
-    path_states = []  # distinct states along the path
-    for k, r in enumerate(rxns):
-        seq.append(G(sp[k]))
-        if k == 0:
-            path_states.append(G(sp[k]))
-        if tsp[k] is not None:
-            seq.append(G(tsp[k]))
-            path_states.append(G(tsp[k]))
-        seq.append(G(sp[k + 1]))
-        path_states.append(G(sp[k + 1]))
-
-    def span(vals):
-        i_max = int(np.argmax(vals))
-        i_min = int(np.argmin(vals))
-        e = vals[i_max] - vals[i_min]
+    def oracle(T_, P_):
+        """-> (expected span, highest-before-lowest, scale, ambiguous) from the harness's own state list"""
+        def G(s):
+            return cf * float(gen.call(s.get_G, units=u, T=T_, P=P_))
+        path_states = []  # distinct states along the path
+        for k, r in enumerate(rxns):
+            if k == 0:
+                path_states.append(G(sp[k]))
+            if tsp[k] is not None:
+                path_states.append(G(tsp[k]))
+            path_states.append(G(sp[k + 1]))
+        i_max = int(np.argmax(path_states))
+        i_min = int(np.argmin(path_states))
+        e = path_states[i_max] - path_states[i_min]
         if i_max < i_min:
-            e += vals[-1] - vals[0]
-        return e, i_max < i_min
-    # generic position only: ties between *different* states would make "comes before" ambiguous
-    ps = sorted(path_states)
-    if any(abs(a - b) < 1e-9 * (1 + abs(a)) for a, b in zip(ps, ps[1:])):
+            e += path_states[-1] - path_states[0]
+        # generic position only: ties between *different* states would make "comes before" ambiguous
+        ps = sorted(path_states)
+        amb = any(abs(a - b) < 1e-9 * (1 + abs(a)) for a, b in zip(ps, ps[1:]))
+        return e, i_max < i_min, max(abs(x) for x in path_states) + 1, amb
+    expect, before, scale, amb = oracle(T, P)
+    if amb:
         ctx.exclude('two different states with (nearly) equal Gibbs energy: order of extrema ambiguous')
         return
-    expect, before = span(path_states)
-    scale = max(abs(x) for x in path_states) + 1
     ctx.label('max-before-min' if before else 'max-after-min', 'with-ts' if any(t is not None for t in tsp) else 'no-ts')
     ctx.nontrivial(before or any(t is not None for t in tsp))
     given = list(rxns)
     seq_obj = Reactions(reactions=given)
-    got = seq_obj.get_E_span(units=u, T=T)
+    got = seq_obj.get_E_span(units=u, T=T, P=P)
     ctx.close('C19.span/Reactions.get_E_span', got, expect, rtol=1e-11, atol=1e-11 * scale)
     # the sequence object is the sequence it was built from: later edits of the caller's list do not reach it
     given.append(given[0])
     given.reverse()
-    ctx.close('C19.span/Reactions.get_E_span:after-caller-edits-its-list', seq_obj.get_E_span(units=u, T=T), got, rtol=0)
+    ctx.close('C19.span/Reactions.get_E_span:after-caller-edits-its-list', seq_obj.get_E_span(units=u, T=T, P=P), got, rtol=0)
     if len(seq_obj.reactions) != len(rxns):
         ctx.fail('C19.span/sequence-follows-callers-list', '%d steps given, %d held after the caller appended to its list' % (
             len(rxns), len(seq_obj.reactions)))
@@ -259,12 +257,23 @@ def check_span(case, ctx):
         if tsp[k] is not None:
             path.append(state_to_set([tsp[k]], [cf]))
         path.append(state_to_set([sp[k + 1]], [cf]))
-    got = net.get_E_span(path=path, units=u, T=T)
+    got = net.get_E_span(path=path, units=u, T=T, P=P)
     ctx.close('C19.span/Network.get_E_span', got, expect, rtol=1e-11, atol=1e-11 * scale)
     from pmutt import constants as c
-    got = net.get_E_span(path=path, units=None, T=T)
+    got = net.get_E_span(path=path, units=None, T=T, P=P)
     ctx.close('C19.span/Network.get_E_span(dimensionless)', got * c.R(u + '/K') * T, expect, rtol=1e-11,
               atol=1e-11 * scale)
+    # the same objects asked again under other conditions (another pressure at the same T, then another T)
+    seq2 = Reactions(reactions=list(rxns))
+    seq2.get_E_span(units=u, T=T, P=P)
+    for T_, P_ in ((T, case.get('P2', 1.0)), (case.get('T2', T), P)):
+        e2, _, sc2, amb2 = oracle(T_, P_)
+        if amb2:
+            continue
+        ctx.close('C19.span/Network.get_E_span:asked-again-at-other-conditions', net.get_E_span(path=path, units=u, T=T_, P=P_), e2,
+                  rtol=1e-11, atol=1e-11 * sc2, detail='T=%r P=%r after T=%r P=%r' % (T_, P_, T, P))
+        ctx.close('C19.span/Reactions.get_E_span:asked-again-at-other-conditions', seq2.get_E_span(units=u, T=T_, P=P_), e2,
+                  rtol=1e-11, atol=1e-11 * sc2, detail='T=%r P=%r after T=%r P=%r' % (T_, P_, T, P))
 
 
 CLAUSES = [
